@@ -459,3 +459,10 @@ void h_drop(void) { ghost_reset(); g.stores = 1; g_res_dtors = 0; g_calls = 0; C
     job('ReadyCore.Here', b_here, src, 'Here', ['SetResult'], entry='h_here')
     job('ReadyCore.Drop', b_drop, src.replace('          /* MakeTask stored its value at construction */', ''), 'DropF', ['RESULT_DTOR', 'Store', 'Call'], entry='h_drop')
     return out
+
+
+def replay(ctx, res, failed, rec):
+    from vf.replay import run_driver
+    if 'PromiseCore' in res.job.name or 'Start' in res.job.name or 'ReadyCore' in res.job.name or 'Task' in res.job.name:
+        return run_driver(ctx, 'task_return.cpp', ['all'], timeout=60)
+    return None, 'no sequential witness driver for this obligation'
